@@ -22,9 +22,9 @@ def jobs():
             reach=['set', 'bad-index', 'wrong-kind'], min_obligations=10, trusted=[VAL], flags=NS,
             clauses=['replaces in place: array, size and every slot pointer unchanged', 'target cleaned then cloned onto', 'self-assignment is a no-op']),
         Job('insert_element_at', 'value_h.c', entry='harness_insert_element_at', enforce='cif_value_insert_element_at', replace=R + ['realloc'], tus=T,
-            defines=dict(D, VERIF_REALLOC_LIST=1), thorough_defines=TD,
+            defines=dict(D, VERIF_REALLOC_LIST=1), thorough_defines={'MAXL': 8},   # this job needs ~20 GB at MAXL=6 already
             loops=0, reach=['inserted', 'grown', 'refused'], min_obligations=10, trusted=[VAL, 'realloc: assumed contract (contracts/value.h) instead of the CBMC model: NULL and old block intact, or fresh block with the old slots copied'], flags=NS, timeout=1200, mem_gb=40, no_loop_contracts=True, text_ui=True, unwindset=['cif_value_insert_element_at_wrapped_for_contract_checking.0:18'],
-            bounded='list capacity <= MAXL (6 quick / 16 thorough); the shift loop is unwound completely (unwinding assertions on) instead of being closed by its invariant: dfcc + realloc + a store through a pointer reloaded from the heap does not terminate with the loop contract',
+            bounded='list capacity <= MAXL (6 quick / 8 thorough); the shift loop is unwound completely (unwinding assertions on) instead of being closed by its invariant: dfcc + realloc + a store through a pointer reloaded from the heap does not terminate with the loop contract',
             clauses=['sequence insert over the whole view', 'capacity growth', 'failed growth leaves the list unchanged and frees the copy']),
         Job('remove_element_at', 'value_h.c', entry='harness_remove_element_at', enforce='cif_value_remove_element_at', replace=R, tus=T, defines=D, thorough_defines=TD,
             loops=1, reach=['removed', 'refused'], min_obligations=10, trusted=[VAL], flags=NS,
